@@ -708,3 +708,48 @@ Proof.
   split; [exact Da|]. split; [exact Dl|exact Db].
 Qed.
 Print Assumptions ply_property_points_st.
+
+(* ================= one statement for every well-formed mesh (ply.Write's table) ================= *)
+(* [ply_property_default] (no per-vertex s/t), [ply_property_points_st] (point cloud with TexCoord, unspecified on) and
+   [ply_points_tex_nounspec] (point cloud, unspecified off) together: no [no_st] hypothesis is left.  r' = r except in the
+   second class, where the attribute list is a permutation. *)
+Theorem ply_property_all : forall o m,
+  o_writers o = default_writers -> wf_mesh m = true ->
+  (w_topo m = TPoint -> has_tex m = true -> o_unspec o = true -> no_user_st m = true) ->
+  (w_n m = 0%nat \/ vertex_props (rview o m) <> []) ->
+  let gs := map (group_of m) (effective_writers o m) in
+  exists fa fl fb r r',
+    write o ASCII m = Ok fa /\ write o BinLE m = Ok fl /\ write o BinBE m = Ok fb /\
+    expected o m = Ok r /\ read_mesh fa = Ok r' /\ read_mesh fl = Ok r' /\ read_mesh fb = Ok r' /\
+    m_topo r' = m_topo r /\ m_idx r' = m_idx r /\ Permutation (m_attrs r') (m_attrs r) /\
+    described ASCII gs m fa /\ described BinLE gs m fl /\ described BinBE gs m fb.
+Proof.
+  intros o m Ho Hwf Hst Hne gs.
+  assert (Dflt : no_st m -> exists fa fl fb r r',
+    write o ASCII m = Ok fa /\ write o BinLE m = Ok fl /\ write o BinBE m = Ok fb /\
+    expected o m = Ok r /\ read_mesh fa = Ok r' /\ read_mesh fl = Ok r' /\ read_mesh fb = Ok r' /\
+    m_topo r' = m_topo r /\ m_idx r' = m_idx r /\ Permutation (m_attrs r') (m_attrs r) /\
+    described ASCII gs m fa /\ described BinLE gs m fl /\ described BinBE gs m fb).
+  { intros C. destruct (ply_property_default o m Ho Hwf C Hne) as (fa & fl & fb & r & Wa & Wl & Wb & Ee & Ra & Rl & Rb & Da & Dl & Db).
+    exists fa, fl, fb, r, r. repeat (split; [assumption|]). split; [reflexivity|]. split; [reflexivity|]. split; [apply Permutation_refl|].
+    split; [exact Da|]. split; [exact Dl|exact Db]. }
+  destruct (w_topo m) eqn:Tp; [|apply Dflt; left; exact Tp].
+  destruct (has_tex m) eqn:Hx; [|apply Dflt; right; exact Hx].
+  destruct (o_unspec o) eqn:Hu; [exact (ply_property_points_st o m Ho Hwf Tp Hx Hu (Hst eq_refl eq_refl eq_refl))|].
+  (* unspecified off *)
+  destruct (wf_faces m Hwf) as (Hm3 & Htx & Hat).
+  pose proof (effective_good o m Ho Hat) as Hg.
+  destruct (rview_same (w_n m) m (effective_writers o m) Hg) as (P & _ & _). fold (rview o m) in P.
+  assert (Hgs : w_n m = 0%nat \/ gs <> []).
+  { destruct Hne as [E|E]; [left; exact E|right]. intros Hnil. apply E. rewrite P. fold gs. rewrite Hnil. reflexivity. }
+  assert (R : forall f, exists file r, write o f m = Ok file /\ expected o m = Ok r /\ read_mesh file = Ok r /\ described f gs m file).
+  { intros f. destruct (ply_points_tex_nounspec o f m Ho Hwf Tp Hu (fun _ => Hne)) as (file & r & W & E & Rd).
+    destruct (write_header_describes_body o f m Hg (fun _ => Hgs) Hm3 Htx) as (file' & W' & D1 & D2 & D3 & D4).
+    assert (file' = file) by congruence. subst file'. exists file, r.
+    split; [exact W|]. split; [exact E|]. split; [exact Rd|]. unfold described. auto. }
+  destruct (R ASCII) as (fa & r & Wa & Ea & Ra & Da). destruct (R BinLE) as (fl & r1 & Wl & El & Rl & Dl). destruct (R BinBE) as (fb & r2 & Wb & Eb & Rb & Db).
+  assert (r1 = r) by congruence. assert (r2 = r) by congruence. subst r1 r2.
+  exists fa, fl, fb, r, r. repeat (split; [assumption|]). split; [reflexivity|]. split; [reflexivity|]. split; [apply Permutation_refl|].
+  split; [exact Da|]. split; [exact Dl|exact Db].
+Qed.
+Print Assumptions ply_property_all.
